@@ -137,7 +137,7 @@ def case(rec, pvl, reader, key):
 def shard(i, n, tier, seed, rec, hb):
     pvl = common.import_pvl()
     per = 2400 if tier == "quick" else 150000
-    for reader in gt.READERS:
+    for reader in common.rotated(gt.READERS, i):
         for j in range(i, per, n):
             hb.beat()
             case(rec, pvl, reader, f"C03-{seed}-{reader}-{j}")
